@@ -549,7 +549,7 @@ def compare(op, py, lean, meta, opt_names):
 
 
 def correspondence(ctx):
-    n = ctx.scale(900, 12000)
+    n = ctx.scale(3000, 40000)
     rng = np.random.RandomState(ctx.seed + 1010)
     cases = []
     for t in range(n):
@@ -751,6 +751,10 @@ def check_fit(model, cfg, ret, rec, pre_state, viol, stats):
     if np.any(np.asarray(model.anis) <= model.anis_bounds[0]) or np.any(np.asarray(model.anis) > model.anis_bounds[1]):
         report("fit:bounds:anis", "anisotropy outside its bounds", value=np.asarray(model.anis).tolist())
     # --- r2 is the r2 of the final model
+    yy = np.asarray(cfg["y"], float).reshape(-1)
+    if np.sum((yy - np.mean(yy)) ** 2) == 0.0:
+        stats["constant-data(r2-undefined)"] = stats.get("constant-data(r2-undefined)", 0) + 1
+        return
     r2i, curve = indep_r2(model, cfg["x"], cfg["y"], cfg["is_dir"])
     if not (abs(r2i - r2) <= 1e-9 * (1 + abs(r2))):
         report("fit:r2-not-of-final-model", "returned r2 differs from the r2 of the model after the call", returned=float(r2), recomputed=float(r2i))
@@ -1039,6 +1043,27 @@ def directed(ctx, viol, stats):
                        near=False, bounds=bk, directed="sill-vs-bounds")
         run_cfg(cfg, viol, stats)
         ev += 1
+    # FIT3: method="dogbox" steps exactly onto the open bound var = 0 and the setter inside the residual function raises
+    truth = dict(var=1.5, len_scale=1.0, nugget=0.0)
+    y = gs.Exponential(dim=2, **truth).variogram(x)
+    cfg = base_cfg("Exponential", truth, dict(var=1.5, len_scale=0.3, nugget=0.0), {}, None, x, y, method="dogbox", loss="linear",
+                   near=False, directed="dogbox-open-bound")
+    run_cfg(cfg, viol, stats)
+    ev += 1
+    # FIT4: init_guess="current" with the (default, admissible) nugget 0.0 on its closed bound starts at nugget = 1.0;
+    # noise-free data of the same family are then not recovered (r2 = 0.39; with nugget = 1e-9 the same call gives r2 = 1)
+    x4 = np.linspace(0.5, 6.0, 16)
+    truth = dict(var=0.5, len_scale=1.45, nugget=0.0)
+    y = gs.Linear(dim=2, **truth).variogram(x4)
+    cfg = base_cfg("Linear", truth, dict(var=0.5, len_scale=1.45 * 1.1, nugget=0.0), {}, None, x4, y, loss="linear",
+                   identifiable=True, directed="init-guess-on-closed-bound")
+    run_cfg(cfg, viol, stats)
+    ev += 1
+    # control: the same call from nugget = 1e-9 (inside the bounds) must recover the curve
+    cfg = base_cfg("Linear", truth, dict(var=0.5, len_scale=1.45 * 1.1, nugget=1e-9), {}, None, x4, y, loss="linear",
+                   identifiable=False, directed="init-guess-control")
+    run_cfg(cfg, viol, stats)
+    ev += 1
     return ev
 
 
@@ -1068,7 +1093,7 @@ def replay(ctx, payload):
 def search(ctx, deep=False):
     viol, stats = [], {}
     ev = directed(ctx, viol, stats)
-    n = ctx.scale(170, 3000) * (3 if deep else 1)
+    n = ctx.scale(510, 6800) * (3 if deep else 1)
     ev += real_search(ctx, n, viol, stats)
     # one representative per key (the verdict is per key), most informative first
     seen, out = set(), []
